@@ -139,7 +139,7 @@ def summarize_san(err):
 
 def write_replay(run, kind, items, extra=None):
     os.makedirs(os.path.join(V, "replays"), exist_ok=True)
-    path = os.path.join(V, "replays", f"{run.prop}-{kind}-seed{run.seed}" + ("-trial" if os.environ.get("VERIF_EVIDENCE_DIR") else "") + ".json")
+    path = os.path.join(V, "replays", f"{run.prop}-{kind}-seed{run.seed}" + ("-trial" + os.environ.get("VERIF_REPLAY_SUFFIX", "") if os.environ.get("VERIF_EVIDENCE_DIR") else "") + ".json")
     body = dict(property=run.prop, kind=kind, seed=run.seed, tier=run.tier,
                 lines=[dict(component=c, line=l, why=w) for c, l, w in items[:50]],
                 replay_cmd=f"python3 tools/check.py --replay {path}")
